@@ -92,6 +92,51 @@ POOL = {I32: I32_POOL, I64: I64_POOL, F32: F32_POOL, F64: F64_POOL}
 BITS = {I32: 32, I64: 64, F32: 32, F64: 64}
 
 
+def convert_patterns(src_bits, mant):
+    """integer sources of an int->float conversion around its rounding decisions: for every position p of the leading bit that
+    makes the source wider than the significand (mant bits): the exact tie, tie+1 / tie-1 (sticky bit decides), ties with odd and
+    even kept parts, all-ones (carry into the next binade); each also negated (two's complement) for the signed conversions"""
+    M = (1 << src_bits) - 1
+    out = set()
+    for p in range(mant, src_bits):
+        lead = 1 << p
+        half = 1 << (p - mant)            # weight of half an ulp of the result
+        ulp = half << 1
+        for kept in (0, ulp, lead - ulp, (lead >> 1) | ulp if p > mant else 0):
+            base = lead | (kept & (lead - 1) & ~(ulp - 1))
+            for low in (half - 1, half, half + 1, ulp - 1, 1, 0):
+                if low < 0 or low >= ulp:
+                    continue
+                v = (base | low) & M
+                out.add(v)
+                out.add((-v) & M)
+        out.add(((lead << 1) - 1) & M)
+    return sorted(out)
+
+
+def demote_patterns():
+    """f64 bit patterns around the rounding decisions of f32.demote_f64: 29 dropped significand bits at tie, tie+-1, for normal
+    f32 results, for results in the f32 subnormal range (more bits dropped) and at the overflow / underflow thresholds"""
+    out = set()
+    for e in (1023, 1023 + 1, 1023 - 1, 1023 + 127, 1023 - 126, 1023 - 127, 1023 - 130, 1023 - 140, 1023 - 149, 1023 - 150, 1023 + 60):
+        for hi in (0, 1 << 29, 0xfffffffe0000000 & ((1 << 52) - 1), 0x8000000000000 | (1 << 29)):
+            for low in (0x0fffffff, 0x10000000, 0x10000001, 0x1fffffff, 1, 0):
+                m = (hi & ~0x1fffffff) | low
+                v = (e << 52) | (m & ((1 << 52) - 1))
+                out.add(v)
+                out.add(v | (1 << 63))
+        # subnormal results: the tie position moves up by (1023-126-e) bits
+        d = 1023 - 126 - e
+        if 0 < d < 24:
+            tie = 1 << (28 + d)
+            for kept in (0, tie << 1):
+                for low in (tie - 1, tie, tie + 1):
+                    m = (kept | low) & ((1 << 52) - 1)
+                    out.add((e << 52) | m)
+                    out.add((e << 52) | m | (1 << 63))
+    return sorted(out)
+
+
 def draw_value(ch, t):
     """value (bit pattern) of type t: pool member, few-bits pattern, small number or uniform random bits"""
     k = ch.below(10)
